@@ -204,6 +204,91 @@ func removeRace(w *vio.Writer, rng *rand.Rand, trials int) {
 	}
 }
 
+// slowReader: one lookup stays inside its critical section for a long time (a descheduled or page-faulting thread) while
+// several updates queue up behind it, the first of which finds the list full and migrates.  However long the writers
+// had to wait, they enter one at a time.
+var slowGoid atomic.Int64
+var slowIn = make(chan struct{}, 1)
+
+func slowReader(w *vio.Writer, rng *rand.Rand, trials int) {
+	for t := 0; t < trials; t++ {
+		log := evlog.New()
+		flt := netutil.NewIPv4Filter()
+		main := log.Buf()
+		procs.Range(func(k, _ any) bool { procs.Delete(k); return true })
+		var cs [][]int
+		var present []uint32
+		for i := 0; i < 256; i++ {
+			v := uint32(40+t%50)<<24 | uint32(i)<<8
+			flt.Add(&net.IPNet{IP: ip4(v), Mask: net.CIDRMask(24, 32)})
+			cs = append(cs, bits(v, 24))
+			present = append(present, v)
+		}
+		main.Emit(ev{K: "bulk", Cs: cs, C: []int{}, IP: []int{}})
+		dwell.Store(int64(15 * time.Millisecond)) // the migrating Add stays in the half-migrated state for 60 ms
+		var wg sync.WaitGroup
+		wg.Add(1)
+		go func() {
+			defer wg.Done()
+			b := log.Buf()
+			slowGoid.Store(goid())
+			v := present[7] | 1
+			b.Emit(ev{K: "rb", P: 60, C: []int{}, IP: bits(v, 32)})
+			res := flt.Contains(ip4(v)) // the hook keeps this call inside the read lock for 160 ms
+			b.Emit(ev{K: "re", P: 60, C: []int{}, IP: bits(v, 32), Res: res})
+			slowGoid.Store(0)
+		}()
+		select {
+		case <-slowIn:
+		case <-time.After(5 * time.Second):
+		}
+		const W = 3
+		var added []uint32
+		for g := 0; g < W; g++ {
+			nv := uint32(95)<<24 | uint32(t%250)<<16 | uint32(g)<<8
+			added = append(added, nv)
+			wg.Add(1)
+			go func(g int, nv uint32) {
+				defer wg.Done()
+				b := log.Buf()
+				defer func() {
+					if e := recover(); e != nil {
+						b.Emit(ev{K: "crash", P: 100 + g, Op: fmt.Sprint(e), C: []int{}, IP: []int{}})
+					}
+				}()
+				b.Emit(ev{K: "wb", P: 100 + g, Op: "add", C: bits(nv, 24), IP: []int{}})
+				err := flt.Add(&net.IPNet{IP: ip4(nv), Mask: net.CIDRMask(24, 32)})
+				b.Emit(ev{K: "we", P: 100 + g, Op: "add", C: bits(nv, 24), IP: []int{}, Err: err != nil})
+			}(g, nv)
+		}
+		done := make(chan struct{})
+		go func() {
+			wg.Wait()
+			dwell.Store(0)
+			defer close(done)
+			defer func() {
+				if e := recover(); e != nil {
+					main.Emit(ev{K: "crash", P: 50, Op: fmt.Sprint(e), C: []int{}, IP: []int{}})
+				}
+			}()
+			for _, v := range append(added, present[3], present[200]) {
+				main.Emit(ev{K: "rb", P: 50, C: []int{}, IP: bits(v|5, 32)})
+				main.Emit(ev{K: "re", P: 50, C: []int{}, IP: bits(v|5, 32), Res: flt.Contains(ip4(v | 5))})
+			}
+		}()
+		select {
+		case <-done:
+		case <-time.After(20 * time.Second):
+			log.Buf().Emit(ev{K: "stuck", P: W, Op: "updates queued behind a slow lookup, or the lookups after them, never returned", C: []int{}, IP: []int{}})
+			w.Put(map[string]any{"evs": log.Merge(), "maps": false, "index": 0, "run": -3, "note": "slowreader deadlock"})
+			w.Close()
+			os.Exit(0)
+		}
+		maps, index := flt.VerifState()
+		w.Put(map[string]any{"evs": log.Merge(), "maps": maps, "index": index, "run": -3, "note": "slowreader"})
+	}
+}
+
 var recent [32]atomic.Uint32
 var recentN atomic.Uint32
 
@@ -211,6 +296,7 @@ func main() {
 	trials := flag.Int("switchrace", 200, "trials of the remove-across-the-switch race")
 	out := flag.String("out", "traces.ndjson", "")
 	runs := flag.Int("runs", 10, "")
+	nslow := flag.Int("slowreader", 3, "trials with one lookup held inside its critical section")
 	nw := flag.Int("writers", 5, "")
 	nr := flag.Int("readers", 6, "")
 	churn := flag.Int("churn", 90, "updates per writer")
@@ -221,6 +307,15 @@ func main() {
 		if e != "add.migrating" {
 			if pi, ok := procs.Load(goid()); ok {
 				pi.(procInfo).b.Emit(ev{K: "lp", P: pi.(procInfo).p, C: []int{}, IP: []int{}})
+			}
+		}
+		if e == "contains.rlocked" {
+			if sg := slowGoid.Load(); sg != 0 && sg == goid() {
+				select {
+				case slowIn <- struct{}{}:
+				default:
+				}
+				time.Sleep(160 * time.Millisecond)
 			}
 		}
 		d := dwell.Load()
@@ -238,6 +333,8 @@ func main() {
 	defer w.Close()
 	switchRace(w, rng, *trials)
 	removeRace(w, rng, *trials)
+	slowReader(w, rng, *nslow)
+	dwell.Store(0)
 	for run := 0; run < *runs; run++ {
 		dwell.Store(int64(50+rng.Intn(400)) * 1000)
 		log := evlog.New()
